@@ -236,7 +236,7 @@ def _run_shard(modname, tier, seed, shard, nshards, n_examples, shrink_seconds):
         for i, case in enumerate(enum(tier)):
             if i % nshards != shard:
                 continue
-            if ex.failing_cases >= MAX_FAILING_CASES:
+            if ex.failing_cases + ex.stats.inconclusive >= MAX_FAILING_CASES:
                 break                  # a broken tree: enough evidence, do not grind through the rest
             kinds, out = ex.execute(case, generated=False)
             for k in kinds:
@@ -260,7 +260,7 @@ def _run_shard(modname, tier, seed, shard, nshards, n_examples, shrink_seconds):
         @settings(max_examples=n_examples, phases=[Phase.generate], **common)
         @given(strat)
         def collect(case):
-            if ex.failing_cases >= MAX_FAILING_CASES:
+            if ex.failing_cases + ex.stats.inconclusive >= MAX_FAILING_CASES:
                 raise _Enough()
             kinds, out = ex.execute(case)
             for k in kinds:
